@@ -2222,4 +2222,75 @@ example : Ref.parseRequest (forwardRequest ⟨[71,69,84], [], [], [47], sHttp11,
 example : Ref.parseRequest (forwardRequest ⟨[80,85,84], [], [], [47], sHttp11, [(sTE, sChunked), ([88], [97, 13, 10, 32, 98])]⟩ [97,98,99] ++ [88]) =
     .ok (⟨[80,85,84], [47], sHttp11, [(sTE, sChunked), ([88], [97, 32, 98])], [97,98,99], .chunked⟩, [88]) := by rfl
 
+/-! ## audit round 6 (cross-audit, added by the C46-48 builder): non-vacuity witnesses — the hypotheses of the theorems above
+    hold together on concrete, non-trivial messages -/
+private def aGET : Bytes := [71, 69, 84]
+private def aPOST : Bytes := [80, 79, 83, 84]
+private def aReq : ReqHead := ⟨aGET, [], [], [47], sHttp11, [([72, 111, 115, 116], [104]), (sCL, [51])]⟩
+private def aReqTE : ReqHead := ⟨aPOST, [], [], [47, 120], sHttp11, [(sTE, sChunked), ([88], [97, 13, 10, 32, 98])]⟩
+private def aResp : RespHead := ⟨sHttp11, 200, [79, 75], [(sCL, [51])]⟩
+private def aRespEof : RespHead := ⟨sHttp11, 200, [79, 75], [([88], [121])]⟩
+/-- `POST / HTTP/1.1 CRLF Content-Length: 5 CRLF Transfer-Encoding: chunked CRLF CRLF` -/
+private def aAmbReq : Bytes :=
+  aPOST ++ [32, 47, 32] ++ sHttp11 ++ crlf ++ sCL ++ colonSp ++ [53] ++ crlf ++ sTE ++ colonSp ++ sChunked ++ crlf ++ crlf
+/-- `HTTP/1.1 200 OK CRLF Content-Length: 5 CRLF Content-Length: 6 CRLF CRLF` -/
+private def aAmbResp : Bytes :=
+  sHttp11 ++ [32, 50, 48, 48, 32, 79, 75] ++ crlf ++ sCL ++ colonSp ++ [53] ++ crlf ++ sCL ++ colonSp ++ [54] ++ crlf ++ crlf
+
+-- bad_field_name_rejected
+example : ([88, 32], [97]) ∈ [(([88, 32] : Bytes), ([97] : Bytes))] ∧ nameOk [88, 32] = false ∧
+    validateHeaders .request sHttp11 [] [([88, 32], [97])] = false := by decide
+-- forward_request_roundtrip(_partial/_nofold): validated, RequestLineOk, no TE, plain values, consistent body
+example : validateHeaders .request aReq.version [] aReq.fields = true := by decide
+example : RequestLineOk aReq := by unfold RequestLineOk; decide
+example : getAll aReq.fields sTE = [] := by decide
+example : BodyConsistent aReq [97, 98, 99] := by
+  have h : requestBodySize aReq = some (.len 3) := by decide
+  simp [BodyConsistent, h]
+example : NoFold aReq := by
+  intro f hf
+  simp [aReq] at hf
+  rcases hf with rfl | rfl <;> exact ⟨by unfold cleanLine; decide, by decide⟩
+-- …_chunked_partial / forward_request_roundtrip with an obs-folded value
+example : validateHeaders .request aReqTE.version [] aReqTE.fields = true ∧ getAll aReqTE.fields sTE ≠ [] := by decide
+example : RequestLineOk aReqTE := by unfold RequestLineOk; decide
+example : BodyConsistent aReqTE [97, 98, 99] := by
+  have h : requestBodySize aReqTE = some .chunked := by decide
+  simp [BodyConsistent, h]
+-- the conclusions on these instances (request with Content-Length; chunked request with a folded value; stream of both)
+example : Ref.parseRequest (forwardRequest aReqTE [97, 98, 99] ++ [88]) =
+    .ok (⟨aPOST, [47, 120], sHttp11, [(sTE, sChunked), ([88], [97, 32, 98])], [97, 98, 99], .chunked⟩, [88]) := by rfl
+example : (Ref.parseRequests 100 ([forwardRequest aReq [97, 98, 99], forwardRequest aReqTE [100]].flatten)).2 = none ∧
+    (Ref.parseRequests 100 ([forwardRequest aReq [97, 98, 99], forwardRequest aReqTE [100]].flatten)).1.map
+      (fun m => (m.a, m.b, m.body)) = [(aGET, [47], [97, 98, 99]), (aPOST, [47, 120], [100])] := by decide +kernel
+-- relay_response_roundtrip(_full): validated, head ok, not CONNECT-2xx, consistent body (Content-Length; HEAD; until close)
+example : validateHeaders (.response aResp.status) aResp.version aResp.reason aResp.fields = true := by decide
+example : RespHeadOk aResp := by
+  refine ⟨by decide, by decide, by unfold cleanLine; decide, by decide, ?_⟩
+  intro f hf; simp [aResp] at hf; subst hf; exact ⟨by unfold cleanLine; decide, by decide⟩
+example : ¬(asciiUpper aGET = sCONNECT ∧ 200 ≤ aResp.status ∧ aResp.status ≤ 299) := by decide
+example : RespBodyConsistent aGET aResp [97, 98, 99] [88] false := by
+  have h : responseBodySize aGET aResp = some (.len 3) := by decide
+  simp [RespBodyConsistent, h]
+example : RespBodyConsistent [72, 69, 65, 68] aResp [] [88] false := by          -- HEAD: no body although Content-Length: 3
+  have h : responseBodySize [72, 69, 65, 68] aResp = some (.len 0) := by decide
+  simp [RespBodyConsistent, h]
+example : RespBodyConsistent aGET aRespEof [97, 98] [] true := by                -- no framing header: read until close
+  have h : responseBodySize aGET aRespEof = some .untilEof := by decide
+  simp [RespBodyConsistent, h]
+example : Ref.parseResponse aGET false (relayResponse aGET aResp [97, 98, 99] ++ [88]) =
+    .ok (⟨sHttp11, [50, 48, 48], [79, 75], [(sCL, [51])], [97, 98, 99], .cl 3⟩, [88]) := by rfl
+example : Ref.parseResponse aGET true (relayResponse aGET aRespEof [97, 98] ++ []) =
+    .ok (⟨sHttp11, [50, 48, 48], [79, 75], [([88], [121])], [97, 98], .eof⟩, []) := by rfl
+-- raw_ambiguous_rejected / lines_ambiguous_rejected: the strict reader calls the bytes ambiguous, mitmproxy's readers read a head, validate_headers refuses it
+example : Ref.parseRequest aAmbReq = .error (.ambiguous Ref.cClTe) := by rfl
+example : (match extractLines aAmbReq with
+    | .lines ls _ => (readRequestHead (fun _ _ => true) ls).map fun r => validateHeaders .request r.version [] r.fields
+    | _ => none) = some false := by decide +kernel
+-- raw_ambiguous_rejected_response
+example : Ref.parseResponse aGET false aAmbResp = .error (.ambiguous Ref.cClConflict) := by rfl
+example : (match extractLines aAmbResp with
+    | .lines ls _ => (readResponseHead ls).map fun r => validateHeaders (.response r.status) r.version r.reason r.fields
+    | _ => none) = some false := by decide +kernel
+
 end MitmVerif.Props.C01
